@@ -738,3 +738,76 @@ W["previous_trials_variable_count"] = dict(
              "forallo(g, forall(u, implies(g != f, iff((g, u) in CACHE, (g, u) in old(CACHE)) and CACHE[(g, u)] == old(CACHE)[(g, u)])))"],
     native=dict(call=_pc_call, domain=_pc_domain, check=_pc_check, skip_requires=True, skip_ensures=True),
 )
+
+# ------------------------------------------------------------------ core/cnf.py: assert_k_of_n for every n and k (C10)
+# Var(v) ~ v.  The formula's clauses come in two kinds: definitional clauses of fresh variables (adders, padding), whose consequences are ASSUMED
+# through the callee contracts (every assignment satisfying them satisfies the sum equations), and the unit clauses asserted at the end, which are
+# collected in the ghost U.  Postcondition: under the definitions, U holds iff exactly k of the inputs are true — the semantic half of C10
+# ("satisfiable under an assignment of the n variables iff the count stands in the relation to k").  Existence and uniqueness of the extension is the
+# Lemma-DE side condition (every fresh variable defined once), checked per shape in the S tier.  pop_count is used BY CONTRACT for symbolic n: that
+# contract is an assumption here (checked per n <= 16/40 in C12's S tier and by the large-n spot checks), everything else is proved.
+_CNT = "sum(j, 0, len(in_list), bit(in_list[j]))"
+_KSUM = "sum(j, 0, len(in_binary), ite(in_binary[j] == 1, pow2(j), 0))"                                 # threshold bits, least significant first (after .reverse())
+_VSUM = "sum(j, 0, len(sum_bits), wbit(sum_bits[len(sum_bits) - 1 - j], j))"                              # value of the count's bits
+_PSUM = "sum(j, 0, len(sum_bits), ite(left_padded[len(sum_bits) - 1 - j] == 1, pow2(j), 0))"            # value of the padded threshold bits
+_PCV = "sum(j, 0, len(result), wbit(result[len(result) - 1 - j], j))"
+_INT_TO_BINARY = dict(params={"value": "int"}, requires=["value >= 0"], returns="list[int]",
+                      ensures=["forall(i, 0, len(result), result[i] == 1 or result[i] == -1)",
+                               "value == sum(i, 0, len(result), ite(result[len(result) - 1 - i] == 1, pow2(i), 0))",
+                               "implies(value > 0, len(result) > 0 and result[0] == 1)", "implies(value == 0, len(result) == 0)"])
+_POP_COUNT = dict(params={"in_list": "list[int]", "saturate_at": "int"},
+                  requires=["len(in_list) >= 1", "saturate_at >= 1", "forall(j, 0, len(in_list), in_list[j] > 0)"],
+                  returns="list[int]",
+                  ensures=["len(result) >= 1", "len(result) <= saturate_at", "forall(j, 0, len(result), result[j] != 0)",
+                           f"implies(len(result) < saturate_at, {_PCV} == {_CNT})",
+                           f"implies(len(result) == saturate_at, ite({_CNT} < pow2(saturate_at - 1), {_PCV} == {_CNT}, {_PCV} >= pow2(saturate_at - 1)))",
+                           "implies(len(result) < saturate_at, pow2(len(result) - 1) >= len(in_list))"])
+W["assert_k_of_n"] = dict(
+    id="assert_k_of_n", target="sweetpea._internal.core.cnf:CNF.assert_k_of_n", prop=["C10"],
+    params={"k": "int", "in_list": "list[int]"},
+    ghost={"U": ("bool", "True")},
+    spec_funcs={"val": (["int"], "bool")},
+    macros=_CNF_MACROS, identity_calls=["Var", "Clause", "CNF"], identity_attrs=["value"],
+    lemmas=["sum_ranges", "binary"], ms=45000,
+    uses={"self._assert_unsatisfiable": dict(params={"in_list": "list[int]"}, ghost_after=["U = False"]),
+          "int_to_binary": _INT_TO_BINARY, "self.pop_count": _POP_COUNT,
+          # "all unit clauses hold", enumerated from the last unit to the first (a reindexing of a finite conjunction: lemma.reindex, proved each run)
+          "self.prepend": dict(params={"units": "list[int]"}, ghost_after=["U = U and forall(j, 0, len(arg_units), L(arg_units[len(arg_units) - 1 - j]))"])},
+    requires=["k >= 0", "len(in_list) >= 1", "forall(j, 0, len(in_list), in_list[j] > 0)"],
+    post_hints=[
+        "len(left_padded) == len(sum_bits) and len(assertion) == len(sum_bits)",
+        "forall(j, 0, len(in_binary), in_binary[j] == 1 or in_binary[j] == -1)",
+        "k == " + _KSUM,
+        "k < pow2(len(in_binary))",
+        # everything below is indexed from the least significant end (position len-1-j of the most-significant-first lists)
+        "forall(i, 0, len(sum_bits), left_padded[i] == ite(len(sum_bits) - 1 - i < len(in_binary), in_binary[len(sum_bits) - 1 - i], 0 - 1))",
+        "forall(j, 0, len(sum_bits), left_padded[len(sum_bits) - 1 - j] == ite(j < len(in_binary), in_binary[j], 0 - 1))",
+        "forall(i, 0, len(sum_bits), left_padded[i] == 1 or left_padded[i] == -1)",
+        "forall(i, 0, len(sum_bits), assertion[i] == left_padded[i] * sum_bits[i])",
+        "forall(i, 0, len(sum_bits), assertion[i] == ite(left_padded[i] == 1, sum_bits[i], 0 - sum_bits[i]))",
+        "forall(i, 0, len(sum_bits), iff(L(assertion[i]), iff(L(sum_bits[i]), left_padded[i] == 1)))",
+        "forall(j, 0, len(sum_bits), left_padded[len(sum_bits) - 1 - j] == 1 or left_padded[len(sum_bits) - 1 - j] == -1)",
+        "forall(j, 0, len(sum_bits), iff(L(assertion[len(sum_bits) - 1 - j]), iff(L(sum_bits[len(sum_bits) - 1 - j]), left_padded[len(sum_bits) - 1 - j] == 1)))",
+        "iff(U, forall(j, 0, len(sum_bits), L(assertion[len(sum_bits) - 1 - j])))",
+        "iff(U, forall(j, 0, len(sum_bits), iff(L(sum_bits[len(sum_bits) - 1 - j]), left_padded[len(sum_bits) - 1 - j] == 1)))",
+        # value of the padded threshold bits and of the sum bits
+        "implies(forall(j, 0, len(sum_bits), iff(L(sum_bits[len(sum_bits) - 1 - j]), left_padded[len(sum_bits) - 1 - j] == 1)), " + _VSUM + " == " + _PSUM + ")",
+        "forall(j, 0, len(sum_bits), wbit(sum_bits[len(sum_bits) - 1 - j], j) == 0 or wbit(sum_bits[len(sum_bits) - 1 - j], j) == pow2(j))",
+        "forall(j, 0, len(sum_bits), ite(left_padded[len(sum_bits) - 1 - j] == 1, pow2(j), 0) == 0 or ite(left_padded[len(sum_bits) - 1 - j] == 1, pow2(j), 0) == pow2(j))",
+        "implies(" + _VSUM + " == " + _PSUM + ", forall(j, 0, len(sum_bits), wbit(sum_bits[len(sum_bits) - 1 - j], j) == ite(left_padded[len(sum_bits) - 1 - j] == 1, pow2(j), 0)))",
+        "implies(" + _VSUM + " == " + _PSUM + ", forall(j, 0, len(sum_bits), iff(L(sum_bits[len(sum_bits) - 1 - j]), left_padded[len(sum_bits) - 1 - j] == 1)))",
+        "iff(U, " + _VSUM + " == " + _PSUM + ")",
+        "implies(len(in_binary) >= 2, k >= pow2(len(in_binary) - 1))",
+        "len(sum_bits) >= len(in_binary)",
+        # the padded threshold has the threshold's value: equal summands below len(in_binary), zero summands above
+        "sum(j, 0, len(in_binary), ite(left_padded[len(sum_bits) - 1 - j] == 1, pow2(j), 0)) == k",
+        "forall(j, len(in_binary), len(sum_bits), ite(left_padded[len(sum_bits) - 1 - j] == 1, pow2(j), 0) == 0)",
+        _PSUM + " == sum(j, 0, len(in_binary), ite(left_padded[len(sum_bits) - 1 - j] == 1, pow2(j), 0))",
+        _PSUM + " == k",
+    ],
+    ensures=[f"iff(U, {_CNT} == k)"],
+    assumptions=["pop_count's contract for symbolic n (result width, exact count below the saturation point, top bit set at or above it, capacity of an unsaturated "
+                 "result) is assumed; it is checked per shape n <= 16 (thorough 40) in C12 and on large n by C10.large",
+                 "Var/Clause/CNF wrappers are modelled by the wrapped values; the unit clauses appended at the end are collected in the ghost U, definitional clauses "
+                 "enter through the callee contracts"],
+)
